@@ -54,6 +54,11 @@ type c14Case struct {
 	// preStatus (307 back to the same URL, or 503) instead of the response proper
 	preStatus, preCount int
 
+	// lane close_e2e: the origin sends the first half of the wire, then waits until the request is
+	// cancelled from the client's side (connection closed / stream reset) and reports on released
+	slow     bool
+	released chan string
+
 	// filled by the origin
 	mu     sync.Mutex
 	seen   bool
@@ -124,6 +129,19 @@ func (o *c14Origin) ServeHTTP(w http.ResponseWriter, r *http.Request) {
 			f.Flush()
 		}
 	}
+	if c.slow {
+		w.Write(c.wire[:len(c.wire)/2])
+		if f, ok := w.(http.Flusher); ok {
+			f.Flush()
+		}
+		select {
+		case <-r.Context().Done():
+			c.released <- "released"
+		case <-time.After(c14ReleaseWait):
+			c.released <- "held"
+		}
+		return
+	}
 	if r.Method != "HEAD" {
 		body := c.wire
 		if c.stream == "short" {
@@ -147,6 +165,10 @@ func (o *c14Origin) ServeHTTP(w http.ResponseWriter, r *http.Request) {
 		}
 	}
 }
+
+// c14ReleaseWait: how long the origin of lane close_e2e waits for the client to let go of an
+// exchange whose body was closed (normally milliseconds).
+const c14ReleaseWait = 3 * time.Second
 
 // ---------------------------------------------------------------------------- origins
 
